@@ -95,7 +95,7 @@ def obligations():
 def audit(prop):
     """Build the property module and print the axioms of every registered theorem.
     Returns dict theorem -> {'ok': bool, 'axioms': [...], 'strength':..., 'note':...} and a log."""
-    obl = obligations().get(prop, [])
+    obl = [o for o in obligations().get(prop, []) if o.get('tier') != 'thorough' or tier() == 'thorough' or os.environ.get('VERIF_AUDIT_ALL')]
     res = {}
     if not obl:
         return res, 'no obligations registered'
